@@ -74,9 +74,14 @@ fn make_lock(fam: u8, p: u64, program: &[(u8, u64)], funding_height: u64) -> Loc
         }
         6 | 7 => Lock { fam: "index-bound", cov: enc(vec![ROp::LoadImm(9), ROp::PushI(be((p % 4) as u128)), ROp::Eql]), ..base },
         8 => {
-            let v = 1000 + (p % 7) as u128;
+            // values below and above 2^64
+            let v = match (p >> 3) % 3 {
+                0 => 1000 + (p % 7) as u128,
+                1 => (1u128 << 64) + 1_500_000 + (p % 7) as u128,
+                _ => (1u128 << 70) + (p % 1000) as u128,
+            };
             let claimed = if p % 5 == 0 { v + 1 } else { v };
-            Lock { fam: "value-bound", cov: enc(vec![ROp::LoadImm(5), ROp::PushI(be(claimed)), ROp::Eql]), ..base }
+            Lock { fam: "value-bound", cov: enc(vec![ROp::LoadImm(5), ROp::PushI(be(claimed)), ROp::Eql]), value: v, ..base }
         }
         9 => {
             // denomination byte and additional data hash
@@ -130,7 +135,7 @@ pub fn check_case(c: &Case, st: &mut Stats, shard: usize) -> Check {
     let net = [NetID::Custom02, NetID::Custom08, NetID::Testnet][c.net as usize % 3];
     let g = GenesisSpec {
         net,
-        init: CoinData { covhash: CovSpec::True.hash(), value: CoinValue(1 << 80), denom: Denom::Mel, additional_data: Default::default() },
+        init: CoinData { covhash: CovSpec::True.hash(), value: CoinValue(1 << 100), denom: Denom::Mel, additional_data: Default::default() },
         init_cov: CovSpec::True,
         fee_pool: 0,
         fee_mult: 100,
@@ -171,7 +176,7 @@ pub fn check_case(c: &Case, st: &mut Stats, shard: usize) -> Check {
         }
     }
     let fee1 = 1u128 << 24;
-    fund.outputs.push(CoinData { covhash: CovSpec::True.hash(), value: CoinValue((1u128 << 80) - mel_locked - fee1), denom: Denom::Mel, additional_data: Default::default() });
+    fund.outputs.push(CoinData { covhash: CovSpec::True.hash(), value: CoinValue((1u128 << 100) - mel_locked - fee1), denom: Denom::Mel, additional_data: Default::default() });
     fund.outputs.push(CoinData { covhash: CovSpec::True.hash(), value: CoinValue((1u128 << 40) - sym_locked), denom: Denom::Sym, additional_data: Default::default() });
     fund.fee = CoinValue(fee1);
     if !matches!(w.apply_batch(std::slice::from_ref(&fund)), O::Ok(())) {
@@ -204,7 +209,7 @@ pub fn check_case(c: &Case, st: &mut Stats, shard: usize) -> Check {
     }
     tx.covenants = covs.iter().map(|c| c.clone().into()).collect();
     tx.data = PREIMAGE.to_vec().into();
-    let total_mel: u128 = mel_locked + ((1u128 << 80) - mel_locked - fee1);
+    let total_mel: u128 = mel_locked + ((1u128 << 100) - mel_locked - fee1);
     let fee2 = 1u128 << 26;
     tx.fee = CoinValue(fee2);
     tx.outputs.push(CoinData { covhash: CovSpec::True.hash(), value: CoinValue(total_mel - fee2 - 5), denom: Denom::Mel, additional_data: Default::default() });
